@@ -299,7 +299,7 @@ def run(rep, tier):
     # carries them; nothing of this may depend on the state of the receiving copy (equal status does not mean equal host or result)
     uf = F.one(X + "Job::UpdateFrom")
     rep.analysed(uf)
-    fu = Fold(uf).run()
+    fu = Fold(uf, inline=lambda q_, g_: q_.startswith(X + "Job::set")).run()      # the class's own setters (setHost, setTime, ..) are followed
     extn = uf.j["params"][0]["name"]
     st_ = {}
     for e_ in fu.events:
